@@ -28,13 +28,17 @@ def replay_args(sc: Scenario, f: Finding) -> List[str]:
     ops = []
     for op in sc.ops:
         name = op[0]
-        if len(op) > 1:
-            kv = op[1]
+
+        def val(kv):
+            if isinstance(kv, str):
+                return kv
             k = kv[1] if isinstance(kv, tuple) else m.get('k%d' % kv, 0)
+            keys.add(k)
+            return str(k)
+        if len(op) > 2 or name == 'extend':
+            ops.append('%s:%s' % (name, '+'.join(val(x) for x in op[1:])))
         else:
-            k = 0
-        keys.add(k)
-        ops.append('%s:%d' % (name, k))
+            ops.append('%s:%s' % (name, val(op[1]) if len(op) > 1 else '0'))
     keep_names = sorted((n for n in m if n.startswith('keep_')), key=lambda n: (int(re.search(r'keep_s(\d+)_', n).group(1)), int(n.rsplit('_', 1)[1])))
     keep = [str(m[n]) for n in keep_names]
     keep += ['1' if sc.retain_rest else '0'] * 40
@@ -55,9 +59,18 @@ def confirm(chk: C.Check, prop: str, sc: Scenario, f: Finding) -> None:
     desc = 'scenario %s: %s\noperations: %s\nsolver model: %s\ntrace:\n  %s' % (f.scenario, f.what, ' '.join(args), f.model, '\n  '.join(f.trace[-12:]))
     outcomes = []
     for release in (False, True):
-        p = native.run_program('seqreplay', src, args, release=release, timeout=300)
+        try:
+            p = native.run_program('seqreplay', src, args, release=release, timeout=120)
+        except native.subprocess.TimeoutExpired:
+            # a sequential script has nobody to wait for: a replay that does not return is blocked on a lock left held (or spins)
+            chk.violation('%s:%s' % (f.kind, f.scenario.rsplit('/', 1)[0]), desc + '\nnative replay (%s) did not terminate within 120 s: an operation of a single-threaded script blocked forever' % ('release' if release else 'dev'),
+                          '// args: %s\n%s' % (' '.join(args), src), 'seq_replay.rs')
+            return
         out = (p.stdout or '').strip().split('\n')[-1] if p.stdout else ''
         outcomes.append(('release' if release else 'dev', p.returncode, out))
+        if 'REPLAY unsupported' in out:
+            chk.inconclusive.append('%s: the interpreter reports `%s`; the native replay does not implement this script (%s)' % (f.scenario, f.what[:200], out))
+            return
         if p.returncode != 0 and 'REPLAY' not in out:
             # crashed (abort / segfault / panic outside catch_unwind): for memory findings that is a reproduction
             in_crate = bool(re.search(r'PANIC-AT \S*(repo-native|flurry)\S*/src/', p.stderr or ''))
